@@ -452,6 +452,9 @@ class BuilderAI:
                 if S is not None:
                     return self._inner(frozenset(S), 0)
                 return None
+            if m in ("to_ident", "to_keyword") and S is not None:
+                for R in sorted(S):
+                    self._ob("ident", f, n, R, self.g.is_name_like(R), "%s() on a %s pair" % (m, R), {"rule": R})
             if m == "as_str" and S is not None:
                 return ("text", frozenset(S))
             return None  # as_rule, to_ident, to_pos, to_keyword, is_rule, line_col ...
